@@ -177,7 +177,7 @@ def run(chk):
     chk.ob('R05.3', 'only negative values are clamped (mask assignment to 0)', len(skipped) >= 1 and all('< 0' in s and s.rstrip().endswith('= 0.0') for s in skipped),
            f'mask statements: {skipped}', mh.where(fh), method='AST pattern')
     energy_theorem(chk, repo, it, m)
-    chk.floor('R05.5', 9); chk.floor('R05.6', 8); chk.floor('R05.7', 8)
+    chk.floor('R05.5', 17); chk.floor('R05.6', 8); chk.floor('R05.7', 8)
     from .common import inplace_lint
     inplace_lint(chk, repo, 'R05.4', ['TidalPy/radial_solver/sensitivity.py', 'TidalPy/tides/multilayer/heating.py'])
     chk.floor('R05.4', 2)
@@ -188,6 +188,9 @@ def run(chk):
     from . import solver_whole as SW
     from .common import index_width_lint
     SW.guarded(chk, 'C05', lambda: SW.assembled(chk, repo, 'R05.9', 'R05.9', 'R05.9', rule_span='R05.9', types=('tidal',)))
+    # the tidal solution requested together with, and after, another type (solve_for=('loading', 'tidal')): only the tidal solution is judged -- it must be the same solution
+    SW.guarded(chk, 'C05', lambda: SW.assembled(chk, repo, 'R05.9', 'R05.9', 'R05.9', rule_span='R05.9', types=('loading', 'tidal'), judge=('tidal',),
+                                                seq_filter=(lambda k_: len(k_) == 2 and k_ in (('solid', 'solid'), ('liquid', 'solid'), ('solid', 'liquid-static'))), tag=' [tidal requested after loading]'))
     SW.guarded(chk, 'C05', lambda: SW.liquid_y3(chk, repo, 'R05.9'))
     index_width_lint(chk, repo, 'R05.10', ['TidalPy/RadialSolver/**/*.pyx', 'TidalPy/utilities/dimensions/*.pyx'])
     chk.floor('R05.9', 20); chk.floor('R05.10', 30)
@@ -282,6 +285,49 @@ def energy_theorem(chk, repo, it, m):
         chk.ob('R05.7', f'{name}: along solutions sensitivity_to_shear == |2 r y1\' - T|^2 / 3 + l(l+1) r^2 |y4|^2 / |mu|^2 + (l-1) l (l+1) (l+2) |y3|^2 and sensitivity_to_bulk == |r y1\' + T|^2 '
                '(T = 2 y1 - l(l+1) y3): both non-negative, hence Im k <= 0 for dissipative or elastic layers', ok,
                '' if ok else 'a kernel is not the non-negative sum of squares along solutions of this class', where, key=f'R05.7|{name}', method='sum-of-squares certificate, GF(p^2) PIT')
+    # (a') the incompressible solid classes.  The kernels are written with a finite bulk modulus; along solutions of the incompressible equations (r y1' = -T) the first
+    #      bracket of sensitivity_to_shear tends to (4/3)|T|^2 as K -> infinity and the kernel to  3|T|^2 + l(l+1) r^2 |y4|^2/|mu|^2 + (l-1)l(l+1)(l+2)|y3|^2,  while
+    #      sensitivity_to_bulk * Im K -> 0 for a real K.  The theorem for an effectively incompressible layer is therefore  dJ/dr == Im(mu) * (that limit)  along every solution
+    #      of the incompressible class; that the limit formula IS the limit of the repository's kernel is cross-checked by evaluating the extracted kernel at K = 1e30.
+    for lv in ((2, 3) if chk.tier == 'quick' else (2, 3, 4, 7)):
+        for static in (False, True):
+            cname = SM.CLASSES[('solid', static, True)]
+            P = SM.params(l=lv)
+            P['K'] = X.atom('Kbig', 'pos')
+            dy, y, fnode = SM.extract_rhs(repo, mo, cname, P, 6)
+            where = mo.where(fnode)
+            r = P['r']; L = lv * (lv + 1)
+            terms = [(0, 1, r * r), (2, 3, r * r * L), (4, 5, r * r / P['fpG'])]
+            dJ = X.ZERO
+            for (i, j, pref) in terms:
+                dJ = dJ + X.diff(pref, 'r') * im_conj(y[i], y[j]) + pref * (im_conj(dy[i], y[j]) + im_conj(y[i], dy[j]))
+            T = 2 * y[0] - L * y[2]
+            H_lim = 3 * X.fn('abs2', T) + L * r * r * X.fn('abs2', y[3]) / X.fn('abs2', P['mu']) + lv * (lv * lv - 1) * (lv + 2) * X.fn('abs2', y[2])
+            ok = d.equal(dJ, X.fn('imag', P['mu']) * H_lim)
+            chk.ob('R05.5', f'{cname} (l={lv}): d/dr of the energy flux J == Im(mu) * [3|T|^2 + l(l+1) r^2 |y4|^2/|mu|^2 + (l-1)l(l+1)(l+2)|y3|^2] (the K -> infinity limit of sensitivity_to_shear) for every solution of these equations',
+                   ok, '' if ok else 'the flux of the implemented incompressible equations is not the limit of the dissipation kernel: ' + d.describe(dJ, X.fn('imag', P['mu']) * H_lim), where,
+                   key=f'R05.5|{cname} (l={lv})', method='symbolic differentiation along the ODE + GF(p^2) PIT')
+            # cross-check of the limit against the repository's kernel (float evaluation of the extracted expression at a very large real K)
+            h0 = X.atom('h_minus', 'pos'); h1 = X.atom('h_plus', 'pos'); D = dy[0]
+            rr = [r - h0, r, r + h1]
+            rad = Arr('r', default=lambda k: rr[k], shape=(3,))
+
+            def ydef(k, y=y, D=D, h0=h0, h1=h1):
+                comp, node = k
+                if comp == 0:
+                    return [y[0] - D * h0, y[0], y[0] + D * h1][node]
+                return y[comp] if node == 1 else X.atom(f'other_y{comp + 1}_{node}', 'complex')
+            ya = Arr('y', default=ydef, shape=(6, 3))
+            mu_a = Arr('mu', default=lambda k: P['mu'] if k == 1 else X.atom(f'mu_other{k}', 'complex'), shape=(3,))
+            K_a = Arr('K', default=lambda k: P['K'] if k == 1 else X.atom(f'K_other{k}', 'pos'), shape=(3,))
+            dbig = X.Decider(seed=chk.seed + 43, k=2, pins={'Kbig': F(10) ** 30})
+            okl = True; nl = 0
+            for lab_, o_ in kernel_paths(it, m, fs, [ya, rad, mu_a, K_a, lv]):
+                nl += 1
+                if not dbig.close(o_.get(1), H_lim, rtol=1e-9):
+                    okl = False
+            chk.ob('R05.5', f'{cname} (l={lv}): the limit formula is the K -> infinity limit of the repository\'s sensitivity_to_shear along solutions of this class (evaluated at K = 1e30)', okl and nl > 0,
+                   'the extracted kernel at K = 1e30 differs from the limit formula', m.where(fs), key=f'R05.5|limit|{cname} (l={lv})', method='float evaluation of the extracted kernel at a pinned, very large K')
     # (b) surface value
     l = X.atom('l', 'pos'); R = X.atom('R_planet', 'pos'); fpG = X.atom('fourpiG', 'pos')
     y5 = X.atom('y5_surface', 'complex'); y1 = X.atom('y1_surface', 'complex'); y3 = X.atom('y3_surface', 'complex')
